@@ -324,6 +324,8 @@ def finish(ctx, level, coverage, assumptions, extra=None):
     ev = {"property_id": ctx.pid, "tier": ctx.tier, "seed": ctx.seed, "level": level, "coverage": cov,
           "assumptions": assumptions, "wall_s": round(time.time() - ctx.t0, 2),
           "violations": len({s for s, _, _ in new})}
+    if getattr(ctx, "binding_selftests", None):
+        ev["coverage"]["binding_selftests_rejected"] = ctx.binding_selftests
     if ctx.notes:
         ev["coverage"]["notes"] = ctx.notes
     if extra:
@@ -347,6 +349,22 @@ def check_evidence(ev):
     r = sh(["python3-vt", "-c", code], stdin=json.dumps(ev), timeout=60)
     if r.returncode != 0:
         raise Broken("evidence does not validate against %s:\n%s" % (schema, (r.stdout or "")[-1500:]))
+
+
+def binding_selftest(ctx, module, cfg, events, corrupt, what, **kw):
+    """Binding demonstration: a recorded behaviour that TLC accepted is corrupted in one field / one event (`corrupt` edits a copy
+    of the event list, returns False if it found nothing to corrupt) and must then be rejected by the trace specification;
+    otherwise the check is broken (the specification does not constrain what was corrupted)."""
+    import copy
+    ev = copy.deepcopy(events)
+    if corrupt(ev) is False:
+        return False
+    v = validate_trace(ctx, module, cfg, ev, name="selftest", **kw)
+    if v["accepted"]:
+        raise Broken("binding self-test: %s is still accepted by %s" % (what, module))
+    ctx.binding_selftests = getattr(ctx, "binding_selftests", [])
+    ctx.binding_selftests.append(what)
+    return True
 
 
 def validate_trace(ctx, module, cfg, events, env=None, name="trace", **kw):
